@@ -55,6 +55,10 @@ type linkCase struct {
 	Seed    int64       `json:"seed"`
 	Reseed  int64       `json:"reseed"` // if nonzero: rand.Seed(Reseed) after all stages have started (mirrored PRNG)
 	Links   int         `json:"links"`  // number of links on the proxy (default 1)
+	DrawKind  string    `json:"draw_kind"`  // "intn" | "int63n": which generator call the single randomized toxic makes
+	DrawN     int64     `json:"draw_n"`     // its argument
+	DrawCount int       `json:"draw_count"` // how many mirrored draws to report
+	SinkDelay []int64   `json:"sink_delay"` // ns the receiver takes to accept each write, cyclically (empty = always ready)
 	Srcs    [][]srcEv   `json:"srcs"`   // per-link source scripts (link k uses Srcs[k] when present, else Src)
 }
 
@@ -80,6 +84,7 @@ type linkResult struct {
 	Ops      []opResult  `json:"ops,omitempty"`
 	Align    [][]string  `json:"align,omitempty"`
 	More     []linkResult `json:"more,omitempty"` // further links of the same case
+	Draws    []int64      `json:"draws,omitempty"` // mirrored PRNG values after the reseed
 	Leak     string       `json:"leak,omitempty"` // synctest's deadlock report: goroutines still blocked at the end
 }
 
@@ -87,6 +92,8 @@ func pattern(k int) byte { return byte((k*7 + 3) % 251) }
 
 type recSink struct {
 	mu     sync.Mutex
+	delays []int64
+	nw     int
 	start  time.Time
 	writes []sinkWrite
 	data   []byte
@@ -98,6 +105,15 @@ func (s *recSink) Write(b []byte) (int, error) {
 	defer s.mu.Unlock()
 	s.writes = append(s.writes, sinkWrite{int64(time.Since(s.start)), len(b)})
 	s.data = append(s.data, b...)
+	if len(s.delays) > 0 {
+		d := time.Duration(s.delays[s.nw%len(s.delays)])
+		s.nw++
+		if d > 0 {
+			s.mu.Unlock()
+			time.Sleep(d) // the receiver is slow: the write returns only after d
+			s.mu.Lock()
+		}
+	}
 	return len(b), nil
 }
 
@@ -189,12 +205,23 @@ func runLinkCase(t *testing.T, c *linkCase) linkResult {
 	for k := 0; k < nl; k++ {
 		pr, pw := io.Pipe()
 		pws[k] = pw
-		sinks[k] = &recSink{start: start, closed: -1}
+		sinks[k] = &recSink{start: start, closed: -1, delays: c.SinkDelay}
 		proxy.Toxics.StartLink(server, fmt.Sprintf("c%d%s", k, c.Dir), pr, sinks[k], dir)
 	}
 	synctest.Wait()
+	var mirrored []int64
 	if c.Reseed != 0 {
 		rand.Seed(c.Reseed)
+		if c.DrawN > 0 {
+			m := rand.New(rand.NewSource(c.Reseed))
+			for i := 0; i < c.DrawCount; i++ {
+				if c.DrawKind == "intn" {
+					mirrored = append(mirrored, int64(m.Intn(int(c.DrawN))))
+				} else {
+					mirrored = append(mirrored, m.Int63n(c.DrawN))
+				}
+			}
+		}
 	}
 	for k := 0; k < nl; k++ {
 		srcWG.Add(1)
@@ -287,6 +314,7 @@ func runLinkCase(t *testing.T, c *linkCase) linkResult {
 	results[0].Rx = counterValue(server.Metrics.ProxyMetrics.ReceivedBytesTotal, labels)
 	results[0].Tx = counterValue(server.Metrics.ProxyMetrics.SentBytesTotal, labels)
 	results[0].Ops = opRes
+	results[0].Draws = mirrored
 	if nl > 1 {
 		results[0].More = results[1:]
 	}
